@@ -260,8 +260,8 @@ def run(ctx, eng):
                 cm.attr_chain(it[2][0]) == 'self.streams'):
             bad.append('does not iterate self.streams.values()')
         body = [e for e in p.events if e.in_loop]
-        if not body:
-            continue       # zero-iteration path
+        if not any(e.kind == 'endloop' for e in p.events):
+            continue       # zero-iteration path (an empty body is not one)
         n += 1
         if any(e.kind == 'assume' for e in body):
             bad.append('a condition skips some streams: the overflow check '
